@@ -28,12 +28,7 @@ Core Lean only.
 namespace C05
 open C04
 
-inductive Obs where
-  | ok (ev : Ev)
-  | fail (listed injected unlink : Bool)
-  | failClosed (listed : Bool)
-  | appear
-deriving DecidableEq, Repr
+-- (`Obs` itself is defined in Model.lean: the transliteration records what a recorder would observe)
 
 def isPub : Ev → Bool
   | .renamePartDest => true
